@@ -89,12 +89,76 @@ fn do_case(kvs: &[Kv], fr: Front, geom: Geom, ty: u64, st: &mut Stats, rep: &Rep
     }
 }
 
+/// Builders kept in use after rejected calls (raw / map / set): whatever the
+/// builder ACCEPTED by its own answers, its output must be a well-formed file
+/// holding exactly that. (A call that is wrongly accepted is C06's business;
+/// a malformed file produced afterwards is a violation of C09 as well: the
+/// statement is about the bytes of ANY builder.) Errors and panics from the
+/// calls themselves are left to C06.
+pub fn run_noisy(kvs: &[Kv], geom: Geom) -> Result<u64, String> {
+    let is_set = kvs.iter().all(|x| x.1 == 0);
+    let mut n = 0;
+    for kind in 0..3u8 {
+        if kind == 2 && !is_set {
+            continue;
+        }
+        for mask in [31u8, 16] {
+            let (bytes, accepted, stray) = match front::noisy_build(kind, if kind == 0 { geom } else { DEFAULT_GEOM }, kvs, mask) {
+                Err(e) if front::is_usage_skip(&e) => continue,
+                r => r?,
+            };
+            n += 1;
+            let mut model: std::collections::BTreeMap<Key, u64> = std::collections::BTreeMap::new();
+            let mut distinct = true;
+            for (k, v) in &accepted {
+                distinct &= model.insert(k.clone(), *v).is_none();
+            }
+            let what = |e: String| format!("builder kept in use after rejected calls (kind {}, {}): accepted [{}]: {}", kind, stray.clone().unwrap_or_else(|| "every call answered as the contract demands".into()), kvs_str(&accepted), e);
+            if distinct {
+                let m: Vec<Kv> = model.into_iter().collect();
+                conforms(&bytes, 0, &m).map_err(what)?;
+            } else {
+                // one key accepted twice: no single value to expect; the file must still be well formed
+                guard(|| codec::decode(&bytes).and_then(|d| d.enumerate()).map(|_| ())).and_then(|x| x).map_err(what)?;
+            }
+        }
+    }
+    Ok(n)
+}
+
+/// The same builds through sinks that accept writes reluctantly: the bytes the
+/// sink ends up with are what "the builder produced" for such a caller.
+pub fn run_sinks(kvs: &[Kv]) -> Result<u64, String> {
+    use crate::sink::{Policy, ScriptSink};
+    let mut n = 0;
+    for pol in [Policy::Cap(1), Policy::Cap(3), Policy::CapInterrupt(2), Policy::Paged(64)] {
+        let bytes = guard(|| -> Result<Vec<u8>, String> {
+            let mut b = fst::raw::Builder::new(ScriptSink::new(vec![], pol)).map_err(|e| format!("{:?}", e))?;
+            for (k, v) in kvs {
+                b.insert(k, *v).map_err(|e| format!("{:?}", e))?;
+            }
+            Ok(b.into_inner().map_err(|e| format!("{:?}", e))?.data)
+        })
+        .and_then(|x| x)
+        .map_err(|e| format!("sink {:?}: {}", pol, e))?;
+        conforms(&bytes, 0, kvs).map_err(|e| format!("sink {:?}: {}", pol, e))?;
+        n += 1;
+    }
+    Ok(n)
+}
+
 pub fn size_family(n: u64) -> Vec<Kv> {
     (0..n).map(|i| (format!("{:08}", i).into_bytes(), i.wrapping_mul(0x9E37_79B9_7F4A_7C15) >> 8)).collect()
 }
 
 pub fn replay(case: &Value) -> Result<String, String> {
     let kvs = if case["big_dense"].as_bool() == Some(true) { big_dense_variant(case["shift"].as_u64().unwrap_or(0) as usize) } else if case["size_family"].is_u64() { size_family(case["size_family"].as_u64().unwrap()) } else { kvs_from(&case["kvs"]) };
+    if case["noisy"].as_bool() == Some(true) {
+        return run_noisy(&kvs, geom_from(&case["geom"])).map(|n| format!("{} noisy builds conform", n));
+    }
+    if case["sinks"].as_bool() == Some(true) {
+        return run_sinks(&kvs).map(|n| format!("{} builds through reluctant sinks conform", n));
+    }
     let fr = front_from(case["front"].as_str().unwrap());
     let geom = geom_from(&case["geom"]);
     let ty = case["ty"].as_u64().unwrap();
@@ -105,7 +169,7 @@ pub fn replay(case: &Value) -> Result<String, String> {
 pub fn plan(tier: Tier) -> Plan {
     let mut p = Plan::new("C09", "model_checking");
     let thorough = tier.thorough();
-    p.rule = "every byte string produced by the builder over the C01 space (all subsets of U_ab3/U_abc2/U_raw2 x value patterns x cache geometries; all 26 front ends (17 entry points + 6 usage variants: builders kept in use after rejected calls, several bulk calls on a populated builder + the 3 memory() constructors with into_fst/into_map/into_set) under the default geometry for small sets; fan-out families 0..256; a label family in which each of the 256 bytes labels single-transition nodes of both forms; type field in {0,1,255,u64::MAX}; size families 3000 / 70000 (thorough: 1200000) keys for 2-,3-,4-byte deltas) is decoded by an independent decoder written from the format description: header/footer fields, reference CRC, backwards tiling of the body without gap or overlap, every target 0 or an earlier tiled node, strictly increasing inputs, index table consistent, depth-first reading == model. Field-width minimality and the choice among legal node forms are not asserted. non-trivial = files with >= 2 keys".into();
+    p.rule = "every byte string produced by the builder over the C01 space (all subsets of U_ab3/U_abc2/U_raw2 x value patterns x cache geometries; all 26 front ends (17 entry points + 6 usage variants: builders kept in use after rejected calls, several bulk calls on a populated builder + the 3 memory() constructors with into_fst/into_map/into_set) under the default geometry for small sets; fan-out families 0..256; a label family in which each of the 256 bytes labels single-transition nodes of both forms; type field in {0,1,255,u64::MAX}; size families 3000 / 70000 (thorough: 1200000) keys for 2-,3-,4-byte deltas) is decoded by an independent decoder written from the format description: header/footer fields, reference CRC, backwards tiling of the body without gap or overlap, every target 0 or an earlier tiled node, strictly increasing inputs, index table consistent, depth-first reading == model. Field-width minimality and the choice among legal node forms are not asserted. Also decoded: the output of raw/map/set builders kept in use after rejected calls (every subset of <= 5 keys of U_ab3; the model is what the builder accepted by its own answers) and builds through reluctant sinks (cap 1, cap 3, cap 2 with interrupts, 64-byte pages) of the small sets and fan-out families. non-trivial = files with >= 2 keys".into();
     p.assumptions = vec!["the format description in DESIGN.md section C09 is the documented format; the decoder shares no code or table with the crate (its common-input table is a frozen literal)".into()];
     let small_geoms: Vec<Geom> = if thorough { GEOMS.iter().cloned().filter(|g| *g != DEFAULT_GEOM).collect() } else { vec![(1, 1), (2, 2), (0, 0)] };
     for u in [u_ab3(), u_abc2(), u_raw2()] {
@@ -134,6 +198,23 @@ pub fn plan(tier: Tier) -> Plan {
                             }
                         }
                     }
+                    if keys.len() <= 5 && u.name == "U_ab3" {
+                        for pat in [Pat::Zero, Pat::Lin3] {
+                            let kvs = pat.apply(&keys);
+                            for g in [(1usize, 1usize), (3, 3)] {
+                                match run_noisy(&kvs, g) {
+                                    Ok(n) => { st.evals += n; st.count("noisy_builds_decoded", n); }
+                                    Err(msg) => rep.violation(format!("noisy {} {:?}", kvs_str(&kvs), g), msg, json!({"kvs": kvs_json(&kvs), "geom": [g.0, g.1], "noisy": true})),
+                                }
+                            }
+                            if keys.len() <= 3 {
+                                match run_sinks(&kvs) {
+                                    Ok(n) => { st.evals += n; st.count("builds_through_reluctant_sinks_decoded", n); }
+                                    Err(msg) => rep.violation(format!("sinks {}", kvs_str(&kvs)), msg, json!({"kvs": kvs_json(&kvs), "sinks": true})),
+                                }
+                            }
+                        }
+                    }
                     if mask % 1021 == 3 {
                         st.sample(|| json!({"universe": u.name, "mask": mask, "keys": keys.iter().map(|k| key_str(k)).collect::<Vec<_>>()}));
                     }
@@ -148,6 +229,12 @@ pub fn plan(tier: Tier) -> Plan {
                 for pat in [Pat::Zero, Pat::Lin3, Pat::MaxMinus, Pat::Boundary(3)] {
                     let kvs = pat.apply(&keys);
                     st.nontrivial += (kvs.len() >= 2) as u64;
+                    if pat == Pat::Lin3 || pat == Pat::MaxMinus {
+                        match run_sinks(&kvs) {
+                            Ok(n) => { st.evals += n; st.count("builds_through_reluctant_sinks_decoded", n); }
+                            Err(msg) => rep.violation(format!("sinks fan-out {} {:?}", kvs.len(), pat), msg, json!({"kvs": kvs_json(&kvs), "sinks": true})),
+                        }
+                    }
                     st.count("fanout_cases", 1);
                     do_case(&kvs, Front::RawInsert, (2, 2), 0, st, rep);
                     do_case(&kvs, Front::RawInsert, DEFAULT_GEOM, 7, st, rep);
